@@ -217,7 +217,7 @@ TaskUnch == <<bufs, avail, cons, out, rpc, rem, got, sticky, closed, batchFirst,
 Wait(t) ==
     /\ tpc[t] = "wait"
     /\ \/ /\ counter = CANCEL /\ tpc' = [tpc EXCEPT ![t] = "fin"]
-       \/ /\ counter = Id(t) - 1 /\ tpc' = [tpc EXCEPT ![t] = "shared"]
+       \/ /\ counter # CANCEL /\ counter = Id(t) - 1 /\ tpc' = [tpc EXCEPT ![t] = "shared"]
     /\ UNCHANGED <<counter, tres, spos>> /\ UNCHANGED TaskUnch
 
 \* read the frame from the shared bitstream  (l.1816-1852)
